@@ -73,6 +73,10 @@ impl JsonConverter {
                 };
                 serde_json::Value::Number(n)
             }
+            // An integer that an f64 can not hold exactly keeps its value.
+            &Val::Int(i) if (i as f64) as i128 != i as i128 => {
+                serde_json::Value::Number(serde_json::Number::from(i))
+            }
             &Val::Int(i) => {
                 let n = match serde_json::Number::from_f64(i as f64) {
                     Some(n) => n,
